@@ -46,7 +46,7 @@ EXPECTED_PROBES = ["neutral-name-sniffed", "stdin-read", "first-chunk-inside-mag
 CODECS = ["none", "gz", "bz2", "lz4", "zst"]
 EXT = {"none": "", "gz": ".gz", "bz2": ".bz2", "lz4": ".lz4", "zst": ".zst"}
 MAGIC = {"gz": b"\x1f\x8b", "bz2": b"BZh", "lz4": b"\x04\x22\x4d\x18", "zst": b"\x28\xb5\x2f\xfd"}
-NAMINGS = ["ext-path", "neutral-path", "bytesio", "bufreader", "rawobj", "stdin-dash", "stdin-none", "scheme-stdin", "bufreader-small", "stdin-nopeek", "bytesio-offset", "bufreader-offset", "ext-path-after-selector", "rawobj-seekable", "fifo-path", "zip-member", "ext-path-double-slash", "stdin-empty", "scheme-stdin-bare"]
+NAMINGS = ["ext-path", "neutral-path", "bytesio", "bufreader", "rawobj", "stdin-dash", "stdin-none", "scheme-stdin", "bufreader-small", "stdin-nopeek", "bytesio-offset", "bufreader-offset", "ext-path-after-selector", "rawobj-seekable", "fifo-path", "zip-member", "ext-path-double-slash", "stdin-empty", "scheme-stdin-bare", "ext-path-relative"]
 NEED_FIRST = {"gz": 2, "bz2": 3, "lz4": 4, "zst": 4}
 
 STREAM_TYPES = ["string", "varint", "uint32", "boolean", "float", "bytes", "datetime", "string[]", "path", "net.ipaddress"]
@@ -245,6 +245,13 @@ def do_read(w, plan, naming, delivery, data, container, codec, tag):
             path = "/simfs/r/%s%s" % (stem, EXT[codec])
             w.fs.put(path, data)
             rd = RecordReader(pre + path)
+        elif naming == "ext-path-relative":
+            # a bare file name in the working directory, no scheme: container and codec both follow the extension
+            name = "%s%s" % (stem, EXT[codec])
+            w.fs.makedirs(w.sim_cwd, exist_ok=True)
+            w.fs.put(w.sim_cwd + "/" + name, data)
+            # (an Avro container inside a codec needs the scheme: ".avro.gz" does not end in ".avro")
+            rd = RecordReader(pre + name if (container == "avro" and codec != "none") else name)
         elif naming == "ext-path-double-slash":
             # an absolute path that starts with two slashes (joined from "/" + "/dir/file", common in scripts): names
             # the same file as with one
